@@ -366,7 +366,12 @@ Record wok (c : config) (st : state) (w : nat) (x : wst) : Prop := mkWok {
   (* the tokens before position w_k of the put order have been queued for every document of the collector *)
   wk_put : w_pc x = 7 -> w_k x < length (order_of c w x) /\ forall j, j < w_k x ->
            Forall2 (fun d l => memN (nth j (order_of c w x) 0%N) (d_toks d) = true ->
-                               In l (post (getf st (w_g x)) (nth j (order_of c w x) 0%N))) (w_docs x) (w_lids x)
+                               In l (post (getf st (w_g x)) (nth j (order_of c w x) 0%N))) (w_docs x) (w_lids x);
+  (* after the last put every document of the collector is in the posting of each of its tokens *)
+  wk_done : 8 <= w_pc x <= 9 ->
+            Forall2 (fun d l => ldoc (getf st (w_g x)) l d /\
+                                forall t, memN t (d_toks d) = true -> In l (post (getf st (w_g x)) t)) (w_docs x) (w_lids x);
+  wk_cnt : 4 <= w_pc x -> w_docs x <> [] -> 0 < w_cnt x
 }.
 
 Definition ext_all (st st' : state) : Prop := forall g, fext (getf st g) (getf st' g).
@@ -380,13 +385,15 @@ Proof. intros H F; induction F; constructor; auto. Qed.
 
 Lemma wok_mono c st st' w x : ext_all st st' -> wok c st w x -> wok c st' w x.
 Proof.
-  intros E [A B C D P]. specialize (E (w_g x)). constructor.
+  intros E [A B C D P DN CN]. specialize (E (w_g x)). constructor; [| | | | | |exact CN].
   - intros R. destruct (fx_blocks _ _ E) as [m EB]. rewrite EB. apply nth_error_app_pre; auto.
   - intros R. destruct (B R) as [B1 B2]. split; auto. intros d Hd. destruct (B2 d Hd) as [p Hp].
     exists p. apply (fx_pos _ _ E); auto.
   - intros R. eapply Forall2_impl; [|exact (C R)]. intros d l H. eapply ldoc_ext; eauto.
   - intros R t Ht. apply (fx_has _ _ E). auto.
   - intros R. destruct (P R) as [P1 P2]. split; auto. intros j Hj. eapply Forall2_impl; [|exact (P2 j Hj)]. intros d l H M. apply (fx_post _ _ E). auto.
+  - intros R. eapply Forall2_impl; [|exact (DN R)]. intros d l [H1 H2]. split; [eapply ldoc_ext; eauto|].
+    intros t Ht. apply (fx_post _ _ E). auto.
 Qed.
 
 (* ---------------------------------------------------------------- what a reader holds *)
@@ -395,13 +402,14 @@ Definition leaf_ok (f : frac) (mapping : list nat) (t : N) (snap : list nat) : P
 
 Definition map_ok (f : frac) (mapping : list nat) : Prop :=
   forall lid, In lid mapping ->
-    lid <> 0 /\ exists d, ldoc f lid d /\ forall t, memN t (d_toks d) = true -> In lid (post f t).
+    lid <> 0 /\ In lid (post f 0%N) /\ exists d, ldoc f lid d /\ forall t, memN t (d_toks d) = true -> In lid (post f t).
 
 Definition rok_op (st : state) (op : rop) : Prop :=
   match op with
   | RSearch g q pc ifrom ito mapping nids snaps pending =>
       let f := getf st g in
-      (pc <> PStart -> map_ok f mapping)
+      ((f_from f <= ifrom)%N /\ (ito <= f_to f)%N /\ 0 < f_total f)
+      /\ (pc <> PStart -> map_ok f mapping)
       /\ (pc = PIds \/ pc = PLeaf -> nids <= length (f_ldocs f) /\ forall lid, In lid mapping -> lid < nids)
       /\ (pc = PLeaf -> exists done, leaves (fst (fst q)) = done ++ pending /\ Forall2 (leaf_ok f mapping) done snaps)
   | _ => True
@@ -410,20 +418,21 @@ Definition rok (st : state) (x : rst) : Prop := rok_op st (r_op x).
 
 Lemma map_ok_mono f f' m : fext f f' -> map_ok f m -> map_ok f' m.
 Proof.
-  intros E H lid HL. destruct (H lid HL) as [N0 [d [D1 D2]]]. split; auto.
+  intros E H lid HL. destruct (H lid HL) as [N0 [P0 [d [D1 D2]]]]. split; auto. split; [apply (fx_post _ _ E); auto|].
   exists d. split; [eapply ldoc_ext; eauto|]. intros t Ht. apply (fx_post _ _ E). auto.
 Qed.
 
 Lemma leaf_ok_mono f f' m t s : fext f f' -> map_ok f m -> leaf_ok f m t s -> leaf_ok f' m t s.
 Proof.
-  intros E M H lid d HL HD. destruct (M lid HL) as [_ [d0 [D1 _]]].
+  intros E M H lid d HL HD. destruct (M lid HL) as [_ [_ [d0 [D1 _]]]].
   pose proof (ldoc_ext _ _ _ _ E D1) as D1'. rewrite (ldoc_fun _ _ _ _ HD D1'). apply (H lid d0); auto.
 Qed.
 
 Lemma rok_mono st st' x : ext_all st st' -> rok st x -> rok st' x.
 Proof.
   intros E. unfold rok, rok_op. destruct (r_op x) as [|g q pc a b m n s p|]; auto.
-  specialize (E g). intros [A [B C]]. split; [|split].
+  specialize (E g). intros [A0 [A [B C]]]. split; [|split; [|split]].
+  - destruct A0 as [X1 [X2 X3]]. destruct (fx_range _ _ E) as [Y1 [Y2 Y3]]. repeat split; try lia; eapply N.le_trans; eauto.
   - intros R. eapply map_ok_mono; eauto.
   - intros R. destruct (B R) as [B1 B2]. split; auto. destruct (fx_ldocs _ _ E) as [mm EM]. rewrite EM, app_length. lia.
   - intros R. destruct (C R) as [done [D1 D2]]. exists done. split; auto.
@@ -659,6 +668,14 @@ Proof.
   unfold put_order. destruct (v_all_last v); auto. intros H. apply in_app_or in H as [H|H]; apply filter_In in H as [H _]; auto.
 Qed.
 
+Lemma put_order_sup v b t : In t (bulk_toks b) -> In t (put_order v b).
+Proof.
+  unfold put_order. destruct (v_all_last v); auto. intros H. apply in_or_app.
+  destruct (N.eqb_spec t 0%N).
+  - right. apply filter_In. split; auto. subst. reflexivity.
+  - left. apply filter_In. split; auto. apply negb_true_iff. apply N.eqb_neq. auto.
+Qed.
+
 Definition put_tl (grp : list nat) (y : tlids) : tlids := mkTl (tl_tok y) (tl_sorted y) (tl_queue y ++ grp).
 
 Lemma put_tl_posting grp y lid : In lid (posting (put_tl grp y)) <-> In lid (posting y) \/ In lid grp.
@@ -865,6 +882,9 @@ Proof.
       * split; [apply incl_filter|]. intros d Hd. apply filter_In in Hd as [_ Hd]. apply mem_id_In in Hd.
         rewrite getf_setw_setf by (apply RG; lia). simpl.
         pose proof (set_multiple_app (w_blk x) (cur_bulk c w x) 0 (f_pos f0) (d_id d)) as X. rewrite SM in X. simpl in X. auto.
+      * destruct (filter (fun d => mem_id (d_id d) app) (cur_bulk c w x)) as [|d0 rest0] eqn:FE; [congruence|].
+        assert (IN0 : In d0 (filter (fun d => mem_id (d_id d) app) (cur_bulk c w x))) by (rewrite FE; left; auto).
+        apply filter_In in IN0 as [_ IN0]. apply mem_id_In in IN0. destruct app; [contradiction|simpl; lia].
   - (* AppendIDs *)
     intros EXT.
     assert (NB : nth_error (f_blocks f0) (w_blk x) = Some (w, w_cur x)) by (apply (wk_blk _ _ _ _ W); lia).
@@ -882,6 +902,7 @@ Proof.
         rewrite seq_nth_error in Hl by auto. inversion Hl; subst l.
         fold f0. unfold f_ids. rewrite map_length. rewrite nth_error_app2 by lia.
         replace (length (f_ldocs f0) + i - length (f_ldocs f0)) with i by lia. exact Hd.
+      * apply (wk_cnt _ _ _ _ W'); auto. lia.
   - (* TokenList.Append *)
     intros EXT. eapply SInv_w; eauto.
     + intros f1 H. rewrite (F0 f1 H). eapply (fok_add_toks c f0 _ (bulk_toks (cur_bulk c w x))); [reflexivity|reflexivity|reflexivity|reflexivity|reflexivity|exact FK0].
@@ -891,17 +912,28 @@ Proof.
       * apply (wk_docs _ _ _ _ W'). lia.
       * apply (wk_lids _ _ _ _ W'). lia.
       * rewrite getf_setw_setf by (apply RG; lia). simpl. apply add_toks_all. auto.
+      * apply (wk_cnt _ _ _ _ W'); auto. lia.
   - (* before the first put *)
     destruct (put_order (c_ver c) (cur_bulk c w x)) as [|t0 rest] eqn:PO; simpl; intros _.
     + eapply SInv_wonly; eauto. constructor; simpl; intros; try lia.
       * apply (wk_blk _ _ _ _ W). lia.
       * apply (wk_docs _ _ _ _ W). lia.
+      * (* no token at all: nothing to put *)
+        apply Forall2_from_nth; [apply (Forall2_length' _ _ _ (wk_lids _ _ _ _ W ltac:(lia)))|].
+        intros i d l Hd Hl. split; [apply (Forall2_nth _ _ _ (wk_lids _ _ _ _ W ltac:(lia)) i d l Hd Hl)|].
+        intros t Ht. exfalso. apply memN_In in Ht.
+        destruct (wk_docs _ _ _ _ W ltac:(lia)) as [INC _].
+        assert (INB : In t (bulk_toks (cur_bulk c w x))) by (eapply bulk_toks_In; [apply INC; eapply nth_error_In; eauto|exact Ht]).
+        assert (INO : In t (put_order (c_ver c) (cur_bulk c w x))) by (apply put_order_sup; auto).
+        rewrite PO in INO. contradiction.
+      * apply (wk_cnt _ _ _ _ W); auto. lia.
     + eapply SInv_wonly; eauto. constructor; simpl; intros; try lia.
       * apply (wk_blk _ _ _ _ W). lia.
       * apply (wk_docs _ _ _ _ W). lia.
       * apply (wk_lids _ _ _ _ W). lia.
       * apply (wk_toks _ _ _ _ W); auto. lia.
       * split; [|intros; lia]. unfold order_of, cur_bulk in *; simpl. rewrite PO. simpl. lia.
+      * apply (wk_cnt _ _ _ _ W); auto. lia.
   - (* one put *)
     destruct (wk_put _ _ _ _ W PC) as [K PR].
     destruct (wk_docs _ _ _ _ W) as [INC POS]; [lia|].
@@ -933,11 +965,34 @@ Proof.
            rewrite get_tok_upd_same by auto. apply (put_tl_posting grp). right.
            eapply group_lids_in; eauto.
         -- destruct (wk_put _ _ _ _ W' PC) as [_ PR']. apply PR'. lia.
+      * apply (wk_cnt _ _ _ _ W'); auto. lia.
     + eapply SInv_w; eauto.
       pose proof (wok_mono c st _ w x EXT W) as W'.
       constructor; simpl; intros; try lia.
       * apply (wk_blk _ _ _ _ W'). lia.
       * apply (wk_docs _ _ _ _ W'). lia.
+      * (* the last put: every token of every document of the collector is queued now *)
+        apply Nat.ltb_ge in LT. rewrite getf_setw_setf by (apply RG; lia). fold f0.
+        pose proof (wk_lids _ _ _ _ W' ltac:(lia)) as F2'. rewrite getf_setw_setf in F2' by (apply RG; lia). fold f0 in F2'.
+        apply Forall2_from_nth; [apply (Forall2_length' _ _ _ F2)|].
+        intros i d l Hd Hl. split; [apply (Forall2_nth _ _ _ F2' i d l Hd Hl)|].
+        intros t' Ht'.
+        assert (INB : In t' (bulk_toks (cur_bulk c w x))).
+        { eapply bulk_toks_In; [apply INC; eapply nth_error_In; eauto|]. apply memN_In. exact Ht'. }
+        apply (put_order_sup (c_ver c)) in INB. apply In_nth_error in INB as [j Hj].
+        assert (JL : j < length (put_order (c_ver c) (cur_bulk c w x))) by (apply nth_error_Some; congruence).
+        assert (NJ : nth j (put_order (c_ver c) (cur_bulk c w x)) 0%N = t') by (apply nth_error_nth; auto).
+        destruct (Nat.eq_dec j (w_k x)) as [EJ|NEJ].
+        -- subst j. unfold post; simpl. fold t in NJ. rewrite <- NJ.
+           assert (HT : has_tok t (f_toks f0) = true).
+           { apply (wk_toks _ _ _ _ W); [lia|]. apply (put_order_sub (c_ver c)). apply nth_In. exact K. }
+           rewrite get_tok_upd_same by auto. apply (put_tl_posting grp). right.
+           eapply group_lids_in; eauto. rewrite NJ. exact Ht'.
+        -- destruct (wk_put _ _ _ _ W' PC) as [_ PR']. assert (JK : j < w_k x) by lia.
+           pose proof (Forall2_nth _ _ _ (PR' j JK) i d l Hd Hl) as X.
+           unfold order_of, cur_bulk in X; simpl in X. rewrite getf_setw_setf in X by (apply RG; lia). fold f0 in X.
+           rewrite <- NJ. apply X. unfold cur_bulk in NJ. rewrite NJ. exact Ht'.
+      * apply (wk_cnt _ _ _ _ W'); auto. lia.
   - (* UpdateStats *)
     intros EXT. eapply SInv_w; eauto.
     + intros f1 H. rewrite (F0 f1 H). eapply (fok_eq c f0); [reflexivity|reflexivity|reflexivity|reflexivity|reflexivity|exact FK0].
@@ -945,6 +1000,8 @@ Proof.
       constructor; simpl; intros; try lia.
       * apply (wk_blk _ _ _ _ W'). lia.
       * apply (wk_docs _ _ _ _ W'). lia.
+      * apply (wk_done _ _ _ _ W'). lia.
+      * apply (wk_cnt _ _ _ _ W'); auto. lia.
   - (* wg.Done *)
     intros EXT. eapply SInv_w; eauto; [|vac].
     intros f1 H. rewrite (F0 f1 H). eapply (fok_eq c f0); [reflexivity|reflexivity|reflexivity|reflexivity|reflexivity|exact FK0].
@@ -1009,7 +1066,7 @@ Proof.
   intros F M NL LN F2 x Hx. destruct q as [[qq qf] qt]. simpl in *.
   apply sort_ids_In in Hx. apply in_map_iff in Hx as [lid [EX HL]].
   apply filter_In in HL as [HL EV]. apply filter_In in HL as [HL RG].
-  destruct (M lid HL) as [NZ [d [D1 D2]]].
+  destruct (M lid HL) as [NZ [_ [d [D1 D2]]]].
   rewrite nth_firstn in EX, RG by (apply LN; auto). rewrite (nth_ids_ldoc f lid d D1) in EX, RG.
   exists d. destruct lid as [|k]; [congruence|]. destruct (fk_ldocs c f F k d D1) as [BD _].
   split; auto. split; auto. subst x. split; [eapply in_range_clamp; eauto|].
@@ -1053,24 +1110,25 @@ Proof. rewrite getf_setf. destruct (_ && _)%bool; auto. Qed.
 
 Lemma advance_sinv c st r g q a b m n x : forall p s done,
   SInv c st -> nth_error (rs st) r = Some x ->
+  ((f_from (getf st g) <= a)%N /\ (b <= f_to (getf st g))%N /\ 0 < f_total (getf st g)) ->
   map_ok (getf st g) m -> n <= length (f_ldocs (getf st g)) -> (forall lid, In lid m -> lid < n) ->
   leaves (fst (fst q)) = done ++ p -> Forall2 (leaf_ok (getf st g) m) done s ->
   SInv c (fst (advance st r g q a b m n s p)) /\
   (forall ids, snd (advance st r g q a b m n s p) = ORes ids -> sound_res c (getf st g) q ids).
 Proof.
-  induction p; intros s done SI EX M NL LN LV F2; simpl.
+  induction p; intros s done SI EX RG0 M NL LN LV F2; simpl.
   - rewrite app_nil_r in LV. subst done. split.
     + eapply (SInv_set_op c _ r RIdle x); [apply SInv_set_rl; auto | exact EX | exact I].
     + intros ids H. inversion H; subst. apply search_result_sound; auto. apply getf_fok; auto.
   - destruct (has_tok a0 (f_toks (getf st g))) eqn:HT; simpl.
     + split; [|intros ids H; discriminate].
-      eapply (SInv_set_op c st r _ x); eauto. simpl. split; [auto|]. split; [auto|].
+      eapply (SInv_set_op c st r _ x); eauto. simpl. split; [exact RG0|]. split; [auto|]. split; [auto|].
       intros _. exists done. auto.
     + apply (IHp (s ++ [[]]) (done ++ [a0])); auto.
       * rewrite <- app_assoc. exact LV.
       * apply Forall2_app; auto. constructor; auto.
         intros lid d HL HD. simpl. destruct (memN a0 (d_toks d)) eqn:MM; auto.
-        destruct (M lid HL) as [_ [d0 [D1 D2]]]. rewrite (ldoc_fun _ _ _ _ HD D1) in MM.
+        destruct (M lid HL) as [_ [_ [d0 [D1 D2]]]]. rewrite (ldoc_fun _ _ _ _ HD D1) in MM.
         apply D2 in MM. apply post_has_tok in MM. congruence.
 Qed.
 
@@ -1120,7 +1178,7 @@ Proof.
   pose proof (si_r c st SI r x EX) as RK. unfold rok in RK.
   destruct (r_op x) as [|g q pc a b m n s p|g fl nb] eqn:OP; simpl.
   - split; auto. split; intros; discriminate.
-  - simpl in RK. destruct RK as [R1 [R2 R3]].
+  - simpl in RK. destruct RK as [R0 [R1 [R2 R3]]].
     assert (FK : fok c (getf st g)) by (apply getf_fok; auto).
     destruct pc; simpl.
     + (* search.start -> after-mapping: the LID universe is the merged `_all_` posting *)
@@ -1128,21 +1186,23 @@ Proof.
       set (st1 := setf st g (fun f => set_toks f (upd_tok 0%N merge_tok (f_toks f)))).
       assert (S1 : SInv c st1).
       { apply SInv_setf; auto; [intros; fx|]. intros f0 H. eapply (fok_merge c f0 _ 0%N); try reflexivity. eapply si_f; eauto. }
-      eapply (SInv_set_op c st1 r _ x); auto. simpl. split; [|split; [intros [H|H]; discriminate | intros H; discriminate]].
-      intros _. apply (map_ok_mono (getf st g)); [apply getf_fext; intros; fx|].
+      assert (E01 : fext (getf st g) (getf st1 g)) by (apply getf_fext; intros; fx).
+      eapply (SInv_set_op c st1 r _ x); auto. simpl. split; [|split; [|split; [intros [H|H]; discriminate | intros H; discriminate]]].
+      { destruct R0 as [X1 [X2 X3]]. destruct (fx_range _ _ E01) as [Y1 [Y2 Y3]]. repeat split; try lia; eapply N.le_trans; eauto. }
+      intros _. apply (map_ok_mono (getf st g)); [exact E01|].
       intros lid HL. assert (HP : In lid (post (getf st g) 0%N)) by exact HL.
-      split; [eapply post_nonzero; eauto|]. destruct (post_ldoc c _ _ _ FK HP) as [d [D1 D2]].
+      split; [eapply post_nonzero; eauto|]. split; [exact HP|]. destruct (post_ldoc c _ _ _ FK HP) as [d [D1 D2]].
       exists d. split; auto. intros t Ht. eapply fk_all; eauto.
     + (* after-mapping -> after-ids *)
       destruct (forallb (fun lid => Nat.ltb lid (length (f_ids (getf st g)))) m) eqn:FB; simpl.
       * split; [|split; intros; discriminate]. eapply (SInv_set_op c st r _ x); auto. simpl.
-        split; [intros _; apply R1; discriminate|]. split; [|intros; discriminate].
+        split; [exact R0|]. split; [intros _; apply R1; discriminate|]. split; [|intros; discriminate].
         intros _. unfold f_ids. rewrite map_length. split; auto. intros lid HL.
         rewrite forallb_forall in FB. specialize (FB lid HL). apply Nat.ltb_lt in FB. unfold f_ids in FB. rewrite map_length in FB. exact FB.
       * split; [|split; intros; discriminate]. eapply (SInv_set_op c _ r RIdle x); [apply SInv_set_rl; auto| exact EX | exact I].
     + (* after-ids: evaluate the leaves *)
       destruct (R2 (or_introl eq_refl)) as [NL LN].
-      destruct (advance_sinv c st r g q a b m n x (leaves (fst (fst q))) [] [] SI EX (R1 ltac:(discriminate)) NL LN eq_refl (Forall2_nil _)) as [A1 A2].
+      destruct (advance_sinv c st r g q a b m n x (leaves (fst (fst q))) [] [] SI EX R0 (R1 ltac:(discriminate)) NL LN eq_refl (Forall2_nil _)) as [A1 A2].
       split; auto. split; [|intros x0' g0' fl0' nb0' bd' H0' H1' H2'; inversion H0'; subst x0'; rewrite OP in H1'; discriminate].
       intros x0 g0 q0 pc0 a0 b0 m0 n0 s0 p0 ids H0 H1 H2. inversion H0; subst x0. rewrite OP in H1. inversion H1; subst. apply A2; auto.
     + (* one leaf *)
@@ -1163,9 +1223,10 @@ Proof.
         - apply memn_In in H. apply filter_In in H as [H _].
           assert (HP : In lid (post (getf st g) t)) by exact H.
           destruct (post_ldoc c _ _ _ FK HP) as [d' [D1 D2]]. rewrite (ldoc_fun _ _ _ _ HD D1). exact D2.
-        - destruct (M lid HL) as [_ [d0 [D1 D2]]]. rewrite (ldoc_fun _ _ _ _ HD D1) in H.
+        - destruct (M lid HL) as [_ [_ [d0 [D1 D2]]]]. rewrite (ldoc_fun _ _ _ _ HD D1) in H.
           apply memn_In. apply filter_In. split; [exact (D2 t H)|]. apply memn_In. exact HL. }
       destruct (advance_sinv c st1 r g q a b m n x rest (s ++ [snap]) (done ++ [t]) S1 EX) as [A1 A2].
+      * destruct R0 as [X1 [X2 X3]]. destruct (fx_range _ _ E1) as [Y1 [Y2 Y3]]. repeat split; try lia; eapply N.le_trans; eauto.
       * eapply map_ok_mono; eauto.
       * rewrite L1. exact NL.
       * exact LN.
@@ -1201,12 +1262,15 @@ Proof.
   destruct q as [[qq qf] qt].
   assert (EMP : forall q', sound_res c (getf st g) q' []) by (intros q' y []).
   assert (FK : fok c (getf st g)) by (apply getf_fok; auto).
+  destruct (intersects (getf st g) qf qt) eqn:INT; simpl;
   repeat match goal with |- context [if ?b then _ else _] => destruct b; simpl end;
     try (split; [exact SI|]; intros x0 g0 q0 ids H0 H1 H2 H3; inversion H0; subst x0; rewrite EG in H1; inversion H1; inversion H2; subst;
          first [discriminate | inversion H3; subst; first [apply EMP | apply sealed_search_sound; exact FK]]).
   split; [|intros; discriminate].
   eapply (SInv_set_op c _ r _ x); [apply SInv_set_rl; auto | exact EX |].
-  simpl. split; [intros H; congruence|]. split; [intros [H|H]; discriminate | intros H; discriminate].
+  simpl. split; [|split; [intros H; congruence|]; split; [intros [H|H]; discriminate | intros H; discriminate]].
+  rewrite getf_setf. destruct (_ && _)%bool; simpl; (split; [apply N.le_refl|]; split; [apply N.le_refl|]);
+    unfold intersects in INT; apply andb_prop in INT as [INT _]; apply negb_true_iff in INT; apply Nat.eqb_neq in INT; lia.
 Qed.
 
 Lemma step_fb_sinv c st r j ids :
